@@ -1,4 +1,303 @@
-/- C09 — property theorems (under construction). -/
-import Lmd.Stats
+/-
+  C09 — no request and no backend reply crashes the daemon.
+
+  Every function of the model is a total Lean function, so "the model terminates with a value" holds by
+  construction for every input: `parseRequest`, `parseCommandHeaders`, `coerce`, `syncTable`, `getVal`,
+  `statsQuery`, `sessionPlan`, `initAllTables` return for every text, every JSON value, every dataset.
+  What is left to prove is that the value is never one of the markers the model uses for the places where
+  the Go code can panic: a `Val.crash` value, `getFloat = none`, `StatsResult.crash = true`.
+
+  1. `getFloat_total`            an aggregate is defined on every value that is not itself the marker.
+  2. `coerce_no_crash` …         whatever a backend sends is stored as a proper value.
+  3. `getVal_no_crash_local` …   which getters can yield the marker at all (`getVal_crash_iff`).
+  4. `stats_no_crash` …          a Stats query never sets its crash flag on proper values.
+  5. `parse_ok_wellformed`       an accepted request has its table and its sort columns.
+  6. `command_headers_guarded`   a COMMAND with `Filter:`/`Stats:`/`WaitCondition:` is refused.
+  7. `session_ends`              the connection loop ends with an answer per request or one error.
+  8. `init_total`                a rebuild ends in an error or with a complete published set.
+
+  Helper lemmas live in `Lmd.Lemmas.TotalLemmas`.
+-/
+import Lmd.Lemmas.TotalLemmas
+import Lmd.Lemmas.Frame
+import Lmd.Props.C11
+
 namespace Lmd.C09
+open Lmd Lmd.Total
+open Lean (Json)
+
+/-! ## 1. aggregates -/
+
+/-- `GetFloat`, the value a `Stats: sum/avg/min/max` aggregates, is undefined (the Go getter panics)
+    exactly when the column's value is the panic marker itself.  On every other value — numbers, strings
+    (`Stats: sum name`), lists, custom variables, placeholders of missing references — it is a number. -/
+theorem getFloat_total (v : View) (c : Column) :
+    getFloat v c = none ↔ ∃ w, v.get c = .crash w := by
+  unfold getFloat
+  cases v.get c <;> simp
+
+/-- non-vacuity: a string that spells a number counts as that number, any other string and a list as 0;
+    only the marker is undefined -/
+example : getFloat { get := fun _ => .s "1.5", flags := 0 } emptyColumn = some 1500
+    ∧ getFloat { get := fun _ => .s "web01", flags := 0 } emptyColumn = some 0
+    ∧ getFloat { get := fun _ => .sl ["a", "b"], flags := 0 } emptyColumn = some 0
+    ∧ getFloat { get := fun _ => .crash "boom", flags := 0 } emptyColumn = none := by decide
+
+/-! ## 2. backend values -/
+
+/-- Whatever JSON value a backend delivers for a column of whatever type, lmd stores a proper value:
+    `coerce` (the `interface2*` conversions) never produces the panic marker. -/
+theorem coerce_no_crash (t : DataType) (j : Json) (w : String) : coerce t j ≠ .crash w :=
+  (isCrash_false_iff _).1 (coerce_clean t j) w
+
+/-- Every cell of a row built from a backend reply (`NewDataRow` / `UpdateValues`) is a proper value. -/
+theorem coerceRow_no_crash (t : Table) (r : ReplyRow) (cell : String × Val)
+    (h : cell ∈ (coerceRow t r).cells) (w : String) : cell.2 ≠ .crash w :=
+  (isCrash_false_iff _).1 (coerceRow_clean t r cell h) w
+
+/-- The same for a whole table after the initial synchronisation (`syncTable`) and for the complete cache
+    of a backend including the rebuilt comment / downtime id lists (`syncBackend`): no stored cell is the
+    panic marker, whatever the backend sent. -/
+theorem synced_no_crash (s : Schema) (t : Table) (reply : List ReplyRow)
+    (tables : List (String × List ReplyRow)) :
+    (∀ r ∈ syncTable t reply, ∀ cell ∈ r.cells, ∀ w, cell.2 ≠ .crash w) ∧
+    (∀ p ∈ syncBackend s tables, ∀ r ∈ p.2, ∀ cell ∈ r.cells, ∀ w, cell.2 ≠ .crash w) :=
+  ⟨fun r hr cell hc => (isCrash_false_iff _).1 (syncTable_clean t reply r hr cell hc),
+   fun p hp r hr cell hc => (isCrash_false_iff _).1 (syncBackend_clean s tables p hp r hr cell hc)⟩
+
+/-- non-vacuity: a string where a number is expected, a number where a list is expected, an object where
+    a string is expected — all are stored as values of the column type -/
+example : (match coerce .int (Json.str "abc") with | .i 0 => true | _ => false) = true
+    ∧ (match coerce .strList (Json.num 0) with | .sl [] => true | _ => false) = true
+    ∧ (match coerce .int64List (Json.str "x") with | .il [] => true | _ => false) = true
+    ∧ (match coerce .str (Json.bool true) with | .s "true" => true | _ => false) = true := by
+  decide
+
+/-! ## 3. getters -/
+
+/-- A locally stored column never reads as the panic marker: for every table, every row whose stored cells
+    are proper values (all rows built from backend replies are, see `synced_no_crash`), and every column
+    with `storage = .loc` — including the lower-case shadow columns and columns without a stored cell. -/
+theorem getVal_no_crash_local (cx : Ctx) (t : Table) (r : Row) (c : Column) (hs : c.storage = .loc)
+    (hr : ∀ cell ∈ r.cells, ∀ w, cell.2 ≠ .crash w) (w : String) : getVal cx t r c ≠ .crash w :=
+  (isCrash_false_iff _).1
+    (getVal_loc_clean cx t r c hs (fun cell hc => (isCrash_false_iff _).2 (hr cell hc))) w
+
+/-- The hypothesis on the row is needed: the model's rows can hold any value, a row holding the marker in
+    a cell reads as the marker. -/
+example : isCrash (getVal { schema := { tables := [] }, ds := { backends := [] }, b := { id := "a", name := "a" } }
+      { name := "hosts", cols := [] } { cells := [("x", .crash "boom")] }
+      { name := "x", dtype := .str, storage := .loc }) = true := by decide
+
+/-- A reference column (`host_…` columns of services and the like) never reads as the panic marker when
+    the schema satisfies `RefLocal`: the column it points to exists in the referenced table and is stored
+    locally there; the rows of the backend hold proper values. -/
+theorem getVal_no_crash_ref (cx : Ctx) (t : Table) (r : Row) (c : Column) (hs : c.storage = .ref)
+    (hl : RefLocal cx.schema c = true)
+    (hb : ∀ p ∈ cx.b.tables, ∀ r ∈ p.2, ∀ cell ∈ r.cells, ∀ w, cell.2 ≠ .crash w) (w : String) :
+    getVal cx t r c ≠ .crash w :=
+  (isCrash_false_iff _).1
+    (getVal_ref_clean cx t r c hs hl
+      (fun p hp r hr cell hc => (isCrash_false_iff _).2 (hb p hp r hr cell hc))) w
+
+/-- A virtual column reads as the panic marker exactly when it is read at all (it is not an optional column
+    the backend lacks) and `virtVal` does not model it. -/
+theorem getVal_virt_crash_iff (cx : Ctx) (t : Table) (r : Row) (c : Column) (hs : c.storage = .virt) :
+    (∃ w, getVal cx t r c = .crash w) ↔ present cx c = true ∧ virtVal cx t r c = none := by
+  rw [← isCrash_iff, getVal_crash_iff]
+  simp [hs]
+
+/-- The limits of the model, precisely.  `getVal` yields the panic marker exactly when the column is read
+    (not an optional column the backend lacks) and one of these holds:
+    * a local column whose stored cell is the marker (never for rows built from backend replies);
+    * a virtual column `virtVal` does not model (only `peer_key`, `peer_name`, `peer_section`, `empty`,
+      `custom_variables`, `state_order`, `has_long_plugin_output`, `total_services` and the columns of the
+      backends table are modelled);
+    * a reference column whose referenced row exists and whose target column is missing from the referenced
+      table, is itself a reference (nested references are not modelled), is an unmodelled virtual column, or
+      is a local column whose stored cell is the marker.
+    For the first two items of the last case and the nested reference the marker stands for "not modelled",
+    not for a known panic of the Go code; the differential harness reports such requests as unsupported. -/
+theorem getVal_crash_iff (cx : Ctx) (t : Table) (r : Row) (c : Column) :
+    (∃ w, getVal cx t r c = .crash w) ↔
+      present cx c = true ∧
+      ((c.storage = .loc ∧ ∃ w, localVal t r c = .crash w) ∨
+       (c.storage = .virt ∧ virtVal cx t r c = none) ∨
+       (c.storage = .ref ∧ ∃ rr, refRow cx t r c.refTable = some rr ∧
+          ((cx.table c.refTable).col? c.refCol = none ∨
+           ∃ rc, (cx.table c.refTable).col? c.refCol = some rc ∧
+             (rc.storage = .ref ∨
+              (rc.storage = .virt ∧ virtVal cx (cx.table c.refTable) rr rc = none) ∨
+              (rc.storage = .loc ∧ ∃ w, localVal (cx.table c.refTable) rr rc = .crash w))))) := by
+  simp only [← isCrash_iff]
+  exact Total.getVal_crash_iff cx t r c
+
+/-- non-vacuity of the virtual case: `peer_key` is modelled, `lmd_version` is not -/
+example : virtVal { schema := { tables := [] }, ds := { backends := [] }, b := { id := "a", name := "a" } }
+      { name := "hosts", cols := [] } { cells := [] } { name := "lmd_version", dtype := .str, storage := .virt } = none
+    ∧ isCrash (getVal { schema := { tables := [] }, ds := { backends := [] }, b := { id := "a", name := "a" } }
+      { name := "hosts", cols := [] } { cells := [] } { name := "peer_key", dtype := .str, storage := .virt }) = false := by
+  decide
+
+/-! ## 4. Stats queries -/
+
+/-- A Stats query does not crash (`StatsResult.crash = false`) whenever on every selected and available
+    backend, on every row of the table, every aggregated column (`Stats: sum/avg/min/max col`) reads as a
+    proper value — in every evaluation mode (index on or off, negation push-down on or off, grouped or flat
+    counting). -/
+theorem stats_no_crash (m : StatsMode) (s : Schema) (ds : Dataset) (t : Table) (req : Request)
+    (h : ∀ b ∈ (selectBackends ds t req).peers, backendAvailable b t = true →
+      ∀ r ∈ tableRows { schema := s, ds := ds, b := b } t,
+        ∀ k col n, StatsEntry.agg k col n ∈ req.stats →
+          ∀ w, getVal { schema := s, ds := ds, b := b } t r col ≠ .crash w) :
+    (statsQuery m s ds t req).crash = false :=
+  statsQuery_no_crash m s ds t req fun b hb ha r hr _ c hc => by
+    obtain ⟨k, n, hm⟩ := mem_aggCols.1 hc
+    exact (isCrash_false_iff _).2 (h b hb ha r hr k c n hm)
+
+/-- Sharper: only the rows that are counted matter — those that pass the request's filter (evaluated as the
+    mode says) and the authorisation check. -/
+theorem stats_no_crash_counted (m : StatsMode) (s : Schema) (ds : Dataset) (t : Table) (req : Request)
+    (h : ∀ b ∈ (selectBackends ds t req).peers, backendAvailable b t = true →
+      ∀ r ∈ tableRows { schema := s, ds := ds, b := b } t,
+        ((if m.pushDown then matchAll m.q (mkView { schema := s, ds := ds, b := b } t r) req.filter
+          else semList m.q (mkView { schema := s, ds := ds, b := b } t r) req.filter) &&
+          checkAuth { schema := s, ds := ds, b := b } t req.authUser r) = true →
+        ∀ k col n, StatsEntry.agg k col n ∈ req.stats →
+          ∀ w, getVal { schema := s, ds := ds, b := b } t r col ≠ .crash w) :
+    (statsQuery m s ds t req).crash = false :=
+  statsQuery_no_crash m s ds t req fun b hb ha r hr hok c hc => by
+    obtain ⟨k, n, hm⟩ := mem_aggCols.1 hc
+    exact (isCrash_false_iff _).2 (h b hb ha r hr hok k c n hm)
+
+/-- Corollary: a Stats query that aggregates locally stored columns only — of whatever type: numbers,
+    strings, lists — never crashes on a dataset whose stored cells are proper values (every dataset built
+    from backend replies), whatever the filter, the grouping columns, the selected backends. -/
+theorem stats_no_crash_local (m : StatsMode) (s : Schema) (ds : Dataset) (t : Table) (req : Request)
+    (hl : ∀ k col n, StatsEntry.agg k col n ∈ req.stats → col.storage = .loc)
+    (hd : ∀ b ∈ ds.backends, ∀ p ∈ b.tables, ∀ r ∈ p.2, ∀ cell ∈ r.cells, ∀ w, cell.2 ≠ .crash w) :
+    (statsQuery m s ds t req).crash = false := by
+  apply stats_no_crash
+  intro b hb _ r hr k col n hm
+  have hclean : BackendClean b := fun p hp r hr cell hc =>
+    (isCrash_false_iff _).2 (hd b (selectBackends_subset ds t req b hb) p hp r hr cell hc)
+  have hrow := tableRows_clean { schema := s, ds := ds, b := b } t hclean r hr
+  exact getVal_no_crash_local _ t r col (hl k col n hm)
+    (fun cell hc => (isCrash_false_iff _).1 (hrow cell hc))
+
+/-- a schema with a hosts table with a string and a number column, and a backend with two hosts -/
+def exSchema : Schema :=
+  { tables := [{ name := "hosts", cols := [{ name := "name", dtype := .str, storage := .loc },
+                                          { name := "latency", dtype := .float, storage := .loc }] }] }
+def exHosts : Table := (exSchema.table? "hosts").getD { name := "hosts", cols := [] }
+def exData (cell : Val) : Dataset :=
+  { backends := [{ id := "a", name := "a",
+                   tables := [("hosts", [{ cells := [("name", .s "web01"), ("latency", .f 1500)] },
+                                         { cells := [("name", cell), ("latency", .f 500)] }])] }] }
+def exMode : StatsMode := { q := Quirks.current, useIndex := true, pushDown := true, grouped := true }
+/-- `Stats: sum name` and `Stats: avg latency` -/
+def exReq : Request :=
+  { table := "hosts", stats := [.agg .sum (exHosts.colWithFallback "name") false,
+                                .agg .avg (exHosts.colWithFallback "latency") false] }
+
+/-- non-vacuity: `Stats: sum name` over host names is answered (sum 0, average 1.0), and the crash flag is
+    real — a row holding the marker in the aggregated column sets it -/
+example : (statsQuery exMode exSchema (exData (.s "db01")) exHosts exReq).crash = false
+    ∧ (statsQuery exMode exSchema (exData (.s "db01")) exHosts exReq).rows.map (fun p => p.2.map Acc.final)
+        = [[(0, 1), (2000, 2)]]
+    ∧ (statsQuery exMode exSchema (exData (.crash "boom")) exHosts exReq).crash = true := by decide
+
+/-! ## 5. accepted requests -/
+
+/-- `parseRequest` is a total function: for every text it returns an error (answered with a 400 text) or a
+    request.  An accepted request is well formed for evaluation: its table exists in the schema, and every
+    sort field carries the column of that table it names — evaluation never dereferences a missing table
+    or a missing sort column. -/
+theorem parse_ok_wellformed (s : Schema) (o : ParseOpts) (text : String) (req : Request)
+    (h : parseRequest s o text = .ok req) :
+    ∃ t, s.table? req.table = some t ∧
+      ∀ sf ∈ req.sort, sf.col = t.col? sf.name ∧ sf.col.isSome = true :=
+  parseRequest_ok s o text req h
+
+/-- the lines of two request texts (`String.splitOn` is evaluated step by step) -/
+private theorem exText_lines : splitLines "GET hosts\nSort: name" = ["GET hosts", "Sort: name"] := by
+  have h1 : ("\n" == "") = false := by decide
+  simp only [splitLines, String.splitOn, h1]
+  repeat (rw [String.splitOnAux]; simp (decide := true) only [ite_false, ite_true])
+
+private theorem exText_lines' : splitLines "GET nosuch" = ["GET nosuch"] := by
+  have h1 : ("\n" == "") = false := by decide
+  simp only [splitLines, String.splitOn, h1]
+  repeat (rw [String.splitOnAux]; simp (decide := true) only [ite_false, ite_true])
+
+/-- non-vacuity: a request with a sort header is accepted, its table is `hosts` and its sort field has a
+    column; a request for an unknown table is refused -/
+example : (match parseRequest exSchema { optimize := true, q := Quirks.current } "GET hosts\nSort: name" with
+      | .ok req => req.table == "hosts" && req.sort.map (fun sf => sf.col.isSome) == [true]
+      | .error _ => false) = true := by
+  unfold parseRequest
+  rw [exText_lines]
+  decide
+
+example : (match parseRequest exSchema { optimize := true, q := Quirks.current } "GET nosuch" with
+      | .ok _ => false | .error _ => true) = true := by
+  unfold parseRequest
+  rw [exText_lines']
+  decide
+
+/-! ## 6. command headers -/
+
+/-- A COMMAND request has no table.  A header line of it whose name (the part before the first colon, lower
+    case) is `filter`, `stats` or `waitcondition` ends the parse with the error "header not supported for
+    commands", whatever precedes or follows it: the column lookup these headers need is never reached. -/
+theorem command_headers_guarded (o : ParseOpts) (req : Request) (line : String) (rest : List String)
+    (hdr x : String) (hc : cut ':' (trimSpace line) = (hdr, some x))
+    (hh : goLower hdr = "filter" ∨ goLower hdr = "stats" ∨ goLower hdr = "waitcondition") :
+    parseCommandHeaders o req (line :: rest) = .error (.bad "header not supported for commands") :=
+  parseCommandHeaders_guarded o req line rest hdr x hc hh
+
+/-- non-vacuity: `COMMAND [0] x` followed by `Filter: name = x` -/
+example : parseCommandHeaders { optimize := true, q := Quirks.current } {} ["Filter: name = x", "Backends: a"]
+    = .error (.bad "header not supported for commands") :=
+  command_headers_guarded _ _ _ _ "Filter" " name = x" (by decide) (.inl (by decide))
+
+/-- the other headers of a command are parsed: `Backends: a` is accepted -/
+example : (match parseCommandHeaders { optimize := true, q := Quirks.current } {} ["Backends: a"] with
+    | .ok req => req.backends == ["a"] | .error _ => false) = true := by decide
+
+/-! ## 7. the connection loop -/
+
+/-- The connection loop terminates for every sequence of requests read from a connection: it performs at
+    most one action per request, every action refers to a request that was read, and an unparsable request
+    produces one error after which nothing follows (the connection is closed). -/
+theorem session_ends (i : Nat) (reqs : List WireReq) :
+    (sessionPlan i reqs).length ≤ reqs.length ∧
+    (∀ k a, (sessionPlan i reqs)[k]? = some a → Lmd.Frame.Action.idx a = i + k ∧ i + k < i + reqs.length) ∧
+    (∀ k j, (sessionPlan i reqs)[k]? = some (Action.parseError j) → k + 1 = (sessionPlan i reqs).length) := by
+  refine ⟨Lmd.Frame.plan_length_le i reqs, ?_, Lmd.Frame.plan_parseError_last i reqs⟩
+  intro k a h
+  refine ⟨Lmd.Frame.plan_idx i reqs k a h, ?_⟩
+  have hk : k < (sessionPlan i reqs).length := by
+    rcases Nat.lt_or_ge k (sessionPlan i reqs).length with hlt | hge
+    · exact hlt
+    · rw [List.getElem?_eq_none hge] at h; cases h
+  have := Lmd.Frame.plan_length_le i reqs
+  omega
+
+example : sessionPlan 0 [⟨true, true⟩, ⟨false, true⟩, ⟨true, true⟩] = [Action.answer 0, Action.parseError 1] := by
+  decide
+
+/-! ## 8. rebuilding a backend -/
+
+/-- `InitAllTables`, from any peer state against any backend behaviour (refusing, garbage, truncated or
+    malformed replies, closing early), returns: with an error, or with a complete published data set. -/
+theorem init_total (w : World) (now : Int) (p : PeerSt) (b : BackendSt) :
+    (initAllTables w now p b).err ≠ .none ∨ (initAllTables w now p b).p.cache.isSome = true := by
+  rcases Lmd.C11.init_all_or_nothing w now p b with ⟨_, h, _⟩ | ⟨h, _⟩
+  · exact .inr (by rw [h]; rfl)
+  · exact .inl h
+
+example : (initAllTables Lmd.C11.exWorld 100 {} Lmd.C11.exBackend).p.cache.isSome = true
+    ∧ (initAllTables Lmd.C11.exWorld 100 {} Lmd.C11.exFailing).err ≠ .none := by decide
+
 end Lmd.C09
